@@ -18,6 +18,9 @@ from .c02 import all_cuts, short
 from .c01 import small_scope_steps
 
 
+from .c02 import inside_surrogate  # noqa: E402
+
+
 def commute_event(b, doc, di, a, bb, tag):
     ra, da = steps.apply_outcome(a, doc)
     rb, db = steps.apply_outcome(bb, doc)
@@ -115,6 +118,42 @@ def run(tier: str, seed: int, t0: float) -> int:
             pairs = [(x, y) for x in firsts for y in firsts if x is not y and separated(x[2], y[2])]
             for x, y in pairs[:12]:
                 commute_event(b2, rd, di, x[1], y[1], f"op:{x[0]}+{y[0]}")
+            # two people editing the same textblock: one inserts (a node, or a list of nodes as insert / replace_with
+            # accept it) or deletes early in it, the other types, deletes or marks further on
+            blocks = []
+            rd.descendants(lambda node, pos, parent, index: blocks.append((pos + 1, node)) if node.is_textblock and node.content.size >= 3 else None)
+            for start, tb in (blocks if len(blocks) <= 3 else rng.sample(blocks, 3)):
+                size = tb.content.size
+                for _ in range(4):
+                    p_ = start + rng.randint(0, size - 2)
+                    q_ = rng.randint(p_ + 1, start + size)
+                    if inside_surrogate(toks, p_) or inside_surrogate(toks, q_) or inside_surrogate(toks, min(q_ + 1, start + size)):
+                        continue
+                    tra, trb = Transform(rd), Transform(rd)
+                    ka = rng.choice(["nodes", "nodes", "text", "replace_with"])
+                    kb = rng.choice(["text", "delete", "mark", "nodes"])
+                    try:
+                        if ka == "nodes":
+                            tra.insert(p_, og.some_nodes())
+                        elif ka == "text":
+                            tra.insert(p_, sch2.text("w"))
+                        else:
+                            tra.replace_with(max(start, p_ - 1), p_, og.some_nodes())
+                        if kb == "text":
+                            trb.insert(q_, sch2.text("zz"))
+                        elif kb == "nodes":
+                            trb.insert(q_, og.some_nodes())
+                        elif kb == "delete":
+                            trb.delete(q_, min(q_ + 1, start + size))
+                        else:
+                            m = sg.mark()
+                            if m is None:
+                                continue
+                            trb.add_mark(q_, start + size, m)
+                    except Exception:  # noqa: BLE001 - e.g. a code block refusing the marked text: not a pair
+                        continue
+                    if tra.steps and trb.steps:
+                        commute_event(b2, rd, di, tra.steps[0], trb.steps[0], f"sameblock:{ka}+{kb}")
         jobs.append((b2, f"T commute[{name}]"))
     vs = trace.validate_many([("Trace_Doc", bb, what) for bb, what in jobs], stats)
     for (bb, what), verdicts in zip(jobs, vs):
